@@ -79,13 +79,14 @@ InlRegion(c) == IF c = "A" THEN 1 ELSE IF c = "B" THEN 2 ELSE 3      \* "T": a t
 MoveKind(cfg) == IF cfg.hasMove THEN 2 ELSE 1                                   \* copy-only types: an rvalue binds to the copy ctor
 StrongKind(cfg) == IF cfg.hasMove /\ (cfg.nothrowMoveCtor \/ ~cfg.copyable) THEN 2 ELSE 1     \* relocate_with_move (2505)
 
+NoCopyThrow(cfg) == "nothrowCopy" \in DOMAIN cfg /\ cfg.nothrowCopy      \* flavour NC: copy ctor / copy assignment are noexcept
 Fallible(cfg, ins) ==
   CASE ins.t = "alloc" -> TRUE
     [] ins.t = "tick" -> TRUE
     [] ins.t = "gen"  -> TRUE
     [] ins.t = "stream" -> TRUE
-    [] ins.t = "ctor" -> ins.kind \in {0, 1, 3} \/ (ins.kind = 2 /\ ~cfg.nothrowMoveCtor)
-    [] ins.t = "asg"  -> ins.kind = 1 \/ (ins.kind = 2 /\ ~cfg.nothrowMoveAssign)
+    [] ins.t = "ctor" -> ins.kind \in {0, 3} \/ (ins.kind = 1 /\ ~NoCopyThrow(cfg)) \/ (ins.kind = 2 /\ ~cfg.nothrowMoveCtor)
+    [] ins.t = "asg"  -> (ins.kind = 1 /\ ~NoCopyThrow(cfg)) \/ (ins.kind = 2 /\ ~cfg.nothrowMoveAssign)
     [] ins.t = "uswap" -> TRUE
     [] OTHER -> FALSE
 
@@ -780,7 +781,7 @@ Script(cfg, pre, ln, id) ==
          \* std::remove_if: find the first match; every later element that is kept is move-assigned down; then the
          \* tail [new_end, end) is erased (size first, then destructors)
          LET es == pre[c].e
-             hit(j) == IF op = "erase_val" THEN ElemEq(cfg.flt, es[j + 1][1], a[1]) ELSE PredHolds(a[1], a[2], es[j + 1][1])
+             hit(j) == IF op = "erase_val" THEN ~(Len(a) >= 2 /\ a[2] = 2) /\ ElemEq(cfg.flt, es[j + 1][1], a[1]) ELSE PredHolds(a[1], a[2], es[j + 1][1])
              firsts == {j \in 0..(x.sz - 1) : hit(j)}
          IN IF firsts = {} THEN <<IRet(0)>>
             ELSE LET f == CHOOSE j \in firsts : \A j2 \in firsts : j <= j2
